@@ -383,9 +383,9 @@ Definition r_g6 (c : rcase) := let '(t, L, f, reqs, times, rates, vr, ob) := c i
 Definition r_g7 (c : rcase) := let '(t, L, f, reqs, times, rates, vr, ob) := c in
   covers L (snd vr) (requested t f reqs).
 """
-# The repairs D73 (D31) and D77 (overlapping wildcard keys) have landed: the mechanism model runs with both switches on and
+# The repairs D73 (D31), D77 (overlapping wildcard keys), D87 (short), D88 (popwild) have landed: the model runs with all switches on and
 # their guards are not guards any more.  VERIF_C06_FIXES=none|D31|overlap evaluates an older model (debugging aid only).
-FIXES = [x for x in os.environ.get("VERIF_C06_FIXES", "D31,overlap").split(",") if x and x != "none"]
+FIXES = [x for x in os.environ.get("VERIF_C06_FIXES", "D31,overlap,short,popwild").split(",") if x and x != "none"]
 # proposed repairs are validated with e.g. VERIF_C06_FIXES=D31,overlap,short  /  D31,overlap,popwild
 HEADER = (HEADER.replace("@D31@", "true" if "D31" in FIXES else "false").replace("@OVERLAP@", "true" if "overlap" in FIXES else "false")
           .replace("@SHORT@", "true" if "short" in FIXES else "false").replace("@POPWILD@", "true" if "popwild" in FIXES else "false"))
